@@ -81,6 +81,11 @@ func (g *FnGen) execCall(s *State, ins ssa.Instruction, com *ssa.CallCommon, res
 	if g.intrinsic(s, com, res) {
 		return
 	}
+	if com.IsInvoke() {
+		if g.boundInvoke(s, com, res) {
+			return
+		}
+	}
 	fc, ct := g.c.calleeContract(g, com)
 	var args []TVal
 	if com.IsInvoke() {
@@ -523,4 +528,62 @@ func (g *FnGen) execAppend(s *State, com *ssa.CallCommon, res ssa.Value) {
 	if g.fc != nil {
 		g.checkFrameCond(pre, app("s-arr", a), inplace, et, "append")
 	}
+}
+
+// boundInvoke: an interface method call whose interface is bound (`bind I => T`)
+// uses T's method contract; the dynamic type is checked as a precondition.
+func (g *FnGen) boundInvoke(s *State, com *ssa.CallCommon, res ssa.Value) bool {
+	it := types.Unalias(com.Value.Type())
+	ct, ok := g.c.binds[types.TypeString(it, nil)]
+	if !ok {
+		return false
+	}
+	key0 := g.c.ifaceKey(it, com.Method.Name())
+	if g.c.contracts[key0] != nil {
+		return false // an explicit interface contract wins
+	}
+	sel := g.c.prog.MethodSets.MethodSet(ct).Lookup(com.Method.Pkg(), com.Method.Name())
+	if sel == nil {
+		sel = g.c.prog.MethodSets.MethodSet(types.NewPointer(ct)).Lookup(com.Method.Pkg(), com.Method.Name())
+	}
+	if sel == nil {
+		panic(genErr("bind: %s has no method %s", ct, com.Method.Name()))
+	}
+	fn := g.c.prog.MethodValue(sel)
+	key := g.c.fnKey(fn)
+	fc := g.c.contracts[key]
+	if fc == nil {
+		panic(genErr("%s: call to %s (through interface %s) has no contract", g.fn.Name(), key, it))
+	}
+	recv := g.term(s, com.Value)
+	g.addObl(s, "requires", fmt.Sprintf("requires@%s[dyntype#%d]", shortKey(key), g.seqN), "dynamic type of the receiver is "+ct.String(), g.posOf(),
+		eq(app("i-tid", recv), intLit(int64(g.c.typeID(ct)))))
+	g.assume(s, eq(app("i-tid", recv), intLit(int64(g.c.typeID(ct)))))
+	tgt := &callTarget{fc: fc, key: key, sig: fn.Signature, fn: fn}
+	rn := "recv"
+	if r := fn.Signature.Recv(); r != nil && r.Name() != "" && r.Name() != "_" {
+		rn = r.Name()
+	}
+	tgt.names = append(tgt.names, rn)
+	for i := 0; i < fn.Signature.Params().Len(); i++ {
+		n := fn.Signature.Params().At(i).Name()
+		if n == "" || n == "_" {
+			n = fmt.Sprintf("arg%d", i)
+		}
+		tgt.names = append(tgt.names, n)
+	}
+	var args []TVal
+	rt := fn.Signature.Recv().Type()
+	if g.c.reg.sortOf(rt) == "Ref" {
+		args = append(args, TVal{term: app("i-val", recv), ty: Ty{sort: "Ref", gt: rt}})
+	} else {
+		v := g.bind("unboxed", g.c.reg.sortOf(rt), g.load(s, app("i-val", recv), rt))
+		args = append(args, TVal{term: v, ty: Ty{sort: g.c.reg.sortOf(rt), gt: rt}})
+	}
+	for _, a := range com.Args {
+		args = append(args, TVal{term: g.term(s, a), ty: Ty{sort: g.c.reg.sortOf(a.Type()), gt: a.Type()}})
+	}
+	g.boundCallees[key] = true
+	g.applyContract(s, fc, tgt, args, res, fn.Signature.Results())
+	return true
 }
